@@ -192,6 +192,12 @@ def run(oc, tier, seed):
         oc.evaluations += 1
         if impl != model:
             oc.corr_mismatch.append(("build_body", {"template": text}, impl, model))
+    # in every run: two templates with the SAME basename in different directories, used in one process, in both orders
+    for a, b in (("work", "home"), ("home", "work")):
+        fixed = {"files": dict(TEMPLATES), "pats": [list(p) for p in PATTERNS if p[1] in ("work/log.zot", "home/log.zot")],
+                 "ops": [{"target": "%s/20240105" % a, "template": None, "vars": None, "overwrite": False},
+                         {"target": "%s/20240106" % b, "template": None, "vars": None, "overwrite": False}]}
+        check_case(eng, fixed, oc)
     for i in range(n):
         case = gen_case(rng)
         before = len(oc.spec_fail)
